@@ -133,7 +133,8 @@ def q_family(fam, fl, ntr=1, ppqn=None):
                  ["annotations_agree_with_detokenise"], desc=f"typed stream family {fam}", max_paths=400000)
 
 
-def q_produced(fl, plan, bins=1):
+def q_produced(fl, plan, bins=1, grid=None):
+    """grid: the plan whose bar lines the stream has when `plan` holds a signature that tokenise cannot honour (mid-bar)"""
     def fn(ctx):
         tok = Tokeniser(num_tracks=2, pitch_range=(60, 62), velocity_bins=bins, flag_running_values=fl[0], flag_fuse_track=fl[1],
                         flag_fuse_value=fl[2], flag_fuse_velocity=fl[3])
@@ -147,7 +148,7 @@ def q_produced(fl, plan, bins=1):
         info = tok.get_info(tokens)
         times = info["info_time"]
         ctx.must("annotated_times_never_decrease", all(a <= b for a, b in zip(times, times[1:])))
-        lines = [0] + bar_lines(plan, max(times + [0]))
+        lines = [0] + bar_lines(grid or plan, max(times + [0]))
         bad = []
         for j, t in enumerate(tokens):
             if "pit_" in t:
@@ -180,4 +181,5 @@ def queries(tier, seed):
     for plan in ("none", "34-58", "68-24", "38"):
         qs.append(q_produced(FLAGS[0], plan))
     qs.append(q_produced(FLAGS[15], "44-34", bins=2))
+    qs.append(q_produced(FLAGS[0], "midbar-44-68", grid="none"))      # a signature event inside a bar is skipped by every stage
     return qs
